@@ -72,6 +72,17 @@ def generate(repo):
         conds.append(_expr(src, a.args[0], {'self.wave': 'w', 'start': 'a', 'end': 'b'}))
     A('/-- `integrate`: a sample is kept when both `np.where` conditions hold -/')
     A(f'def integrateKeeps (a b w : Rat) : Bool := {conds[0]} && {conds[1]}')
+    # ---- integrate: default bounds (start=None / end=None)
+    dflt = {}
+    for st in integ.body:
+        if isinstance(st, ast.If) and len(st.body) == 1 and not st.orelse and isinstance(st.body[0], ast.Assign):
+            dflt[ast.unparse(st.test)] = ast.unparse(st.body[0])
+    if dflt != {'start is None': 'start = np.min(self.wave)', 'end is None': 'end = np.max(self.wave)'}: raise Refuse(f'integrate: default bounds {dflt}')
+    ia = integ.args
+    if [x.arg for x in ia.args] != ['self', 'start', 'end', 'method'] or [ast.unparse(d) for d in ia.defaults][:2] != ['None', 'None']: raise Refuse('integrate: signature')
+    A('/-- `integrate()` without bounds: `start = np.min(self.wave)`, `end = np.max(self.wave)` (wmin, wmax: smallest / largest wavelength) -/')
+    A('def integrateDefaultStart (wmin wmax : Rat) : Rat := wmin')
+    A('def integrateDefaultEnd (wmin wmax : Rat) : Rat := wmax')
     # ---- ends (trim): above tolerance
     ends = _method(cls, 'ends')
     nv = [st for st in ends.body if isinstance(st, ast.Assign) and ast.unparse(st.targets[0]) == 'normval']
